@@ -108,6 +108,18 @@ def run (args : List String) : String :=
         | .error _ => "err"
       | _, _ => "bad-op"
     | _ => "bad-op"
+  | "convdec" :: rest =>
+    -- the value arrives encoded and is decoded into the target (`DecodeFrom`: decode as the source type, then convert):
+    -- what the conversion gives (the codec is C03's subject)
+    match splitBar rest with
+    | tt :: vt :: _ =>
+      match parseType tt, parseVal vt with
+      | some (t, []), some (v, []) =>
+        match convert nativeOps t v with
+        | .ok r => if keyClash r then "nondet" else "ok " ++ render r
+        | .error _ => "err"
+      | _, _ => "bad-op"
+    | _ => "bad-op"
   | "convrt" :: rest =>
     -- source type | target type | value : convert into the target, then back
     match splitBar rest with
